@@ -185,7 +185,7 @@ KINDS = [("counter", "long"), ("counter", "double"), ("updown", "long"), ("updow
 
 
 def concretisation(rng, mono):
-    kinds = KINDS if mono else KINDS[2:]
+    kinds = KINDS[:2] if mono else KINDS[2:]
     kind, vt = rng.choice(kinds)
     return {"kind": kind, "vt": vt, "kt": rng.randrange(4), "vf": rng.randrange(11), "scale": rng.randrange(3),
             "seed": rng.randrange(1, 1 << 30), "defview": rng.random() < 0.5}
